@@ -836,7 +836,7 @@ fn create_archive(
         return Ok(());
     }
 
-    Ok(())
+    anyhow::bail!("--batch (legacy batch mode) is not available in this build; no archive was written")
 }
 
 fn write_bin<P: AsRef<Path>>(path: P, data: &[u8]) -> Result<()> {
